@@ -984,8 +984,13 @@ func (r *Runner) ensureStorage() error {
 	if r.Runstackpos < r.runtrackcount*4 {
 		doubleIntSlice(&r.runstack, &r.Runstackpos)
 	}
-	if r.Runtrackpos < r.runtrackcount*4 && !r.growTrack() {
-		return ErrBacktrackingStackLimit
+	// One doubling is not always enough: when the limit clips it to a few extra slots the
+	// reserve the interpreter relies on between two checks is still missing. Grow until the
+	// reserve holds or the limit stops the growth.
+	for r.Runtrackpos < r.runtrackcount*4 {
+		if !r.growTrack() {
+			return ErrBacktrackingStackLimit
+		}
 	}
 	return nil
 }
